@@ -130,7 +130,30 @@ func TestCheck(t *testing.T) {
 		for i := range out {
 			out[i] = byte(0xA5 ^ k ^ uint32(i))
 		}
-		panicked, pd = vf.Try(func() { err = peer.DeriveKey(c.ctx, c.salt, pool[c.key].Priv, out) })
+		// every third call hands the salt over as a sub-slice of a larger buffer
+		// (spare capacity filled with a canary): the function must neither depend
+		// on nor write to caller memory outside `out`
+		salt := c.salt
+		var whole []byte
+		if k%3 == 0 && len(c.salt) > 0 {
+			whole = make([]byte, len(c.salt)+64)
+			copy(whole, c.salt)
+			for i := len(c.salt); i < len(whole); i++ {
+				whole[i] = byte(0x3C ^ k ^ uint32(i))
+			}
+			salt = whole[:len(c.salt)]
+		}
+		panicked, pd = vf.Try(func() { err = peer.DeriveKey(c.ctx, salt, pool[c.key].Priv, out) })
+		if whole != nil && !panicked {
+			okc := bytes.Equal(whole[:len(c.salt)], c.salt)
+			for i := len(c.salt); i < len(whole) && okc; i++ {
+				okc = whole[i] == byte(0x3C^k^uint32(i))
+			}
+			if !okc {
+				r.Violation("DeriveKey/modifies-caller-memory", "DeriveKey wrote to the caller's salt buffer (the salt itself or the spare capacity behind it)", map[string]any{"case": c.sig()})
+			}
+			r.Count("salt_with_spare_capacity_calls", 1)
+		}
 		return
 	}
 
@@ -182,6 +205,49 @@ func TestCheck(t *testing.T) {
 		}
 	}
 	r.Extra("distinct_outputs_32", len(seen))
+
+	// one salt slice WITH spare capacity shared by concurrent derivations, and two
+	// salts that are adjacent fields of one buffer: outputs must equal those of
+	// independent exact-capacity copies
+	for _, L := range []int{1, 16, 33, 1024, 1 << 16} {
+		buf := make([]byte, 2*L+128)
+		for i := range buf {
+			buf[i] = byte(rng.UintN(256))
+		}
+		saltA, saltB := buf[:L], buf[L:2*L:2*L]
+		refA, refB := append([]byte(nil), saltA...), append([]byte(nil), saltB...)
+		want := func(salt []byte) []byte {
+			o := make([]byte, 32)
+			_ = peer.DeriveKey("shared", append([]byte(nil), salt...), pool[0].Priv, o)
+			return o
+		}
+		wantA, wantB := want(refA), want(refB)
+		var wg sync.WaitGroup
+		var bad atomic.Int32
+		for g := 0; g < 8; g++ {
+			wg.Add(1)
+			go func() {
+				defer wg.Done()
+				for it := 0; it < r.N(12, 200); it++ {
+					o := make([]byte, 32)
+					if pk, _ := vf.Try(func() { _ = peer.DeriveKey("shared", saltA, pool[0].Priv, o) }); pk || !bytes.Equal(o, wantA) {
+						bad.Add(1)
+					}
+				}
+			}()
+		}
+		wg.Wait()
+		r.Case(fmt.Sprintf("shared-salt|%d", L), true)
+		r.Count("shared_salt_concurrent_derivations", 8*r.N(12, 200))
+		if bad.Load() > 0 {
+			r.Violation("DeriveKey/nondeterministic/shared-salt-slice", "concurrent derivations sharing one salt slice (with spare capacity) gave different outputs for the same inputs", map[string]any{"salt_len": L, "mismatches": bad.Load()})
+		}
+		ob := make([]byte, 32)
+		_ = peer.DeriveKey("shared", saltB, pool[0].Priv, ob)
+		if !bytes.Equal(saltB, refB) || !bytes.Equal(ob, wantB) {
+			r.Violation("DeriveKey/modifies-caller-memory", "deriving with one salt changed an adjacent salt held in the same buffer", map[string]any{"salt_len": L})
+		}
+	}
 
 	// DeriveEd25519Key: usable key, deterministic, separated
 	seenID := map[string]string{}
